@@ -274,6 +274,12 @@ func runC15(c *Ctx) {
 		return ok && p.CalleeName(call) == "builtin.delete" && LoadsField(call.Call.Args[0], "cacheHandler", "teardownWaiters")
 	}
 	td := p.ConstVal(pkgResource, "PhaseTearingDown")
+	lastSharerGone := func(e EdgeInfo) bool {
+		// a counter compared with zero (not the index of a select arm)
+		return AnyFact(e, func(f string) bool {
+			return (Glob("eq(*,const:0)", f) || Glob("le(*,const:0)", f) || Glob("lt(*,const:1)", f)) && !strings.Contains(f, "select#")
+		})
+	}
 
 	for _, f := range p.PkgFuncs(pkgCache) {
 		if len(Find(f, isDelete)) == 0 {
@@ -281,7 +287,9 @@ func runC15(c *Ctx) {
 		}
 
 		c.Touch(f)
-		c.MustCut("R15.6", "delete(teardownWaiters) ⊣ {close(ch)}", f, isDelete, CutSpec{Nodes: isClose}, 1)
+		// an entry leaves the table together with its wake-up (close), or — reference-counted waiters — when the
+		// last caller sharing it has gone (a counter reached zero)
+		c.MustCut("R15.6", "delete(teardownWaiters) ⊣ {close(ch)}", f, isDelete, CutSpec{Nodes: isClose, Edges: lastSharerGone}, 1)
 	}
 
 	for _, name := range []string{"put", "remove"} {
@@ -347,8 +355,27 @@ func runC15(c *Ctx) {
 			okSel := sel != nil && sel.Blocking && len(sel.States) == 2
 			c.Check(okSel, "R15.6", FuncName(g)+" :: waits on exactly {ctx.Done, waiter channel}", fpos(g), "yes", "select shape changed")
 			// the goroutine only waits: it does not touch the handler's tables (they belong to put/remove)
-			c.Check(len(Find(g, guarded)) == 0, "R15.6", FuncName(g)+" :: the per-caller goroutine does not modify the shared waiter table", fpos(g), "yes",
-				"a per-caller goroutine edits the shared teardownWaiters table: other callers waiting on the same id lose their wake-up")
+			if len(Find(g, guarded)) == 0 {
+				c.OK("R15.6", FuncName(g)+" :: the per-caller goroutine does not modify the shared waiter table", fpos(g), "yes")
+			} else {
+				// the only edit a leaving caller may make: drop the entry when it was the last one sharing it
+				onlyDeletes := true
+
+				for _, in := range Find(g, guarded) {
+					switch in.(type) {
+					case *ssa.MapUpdate:
+						onlyDeletes = false
+					}
+				}
+
+				okDel := true
+				if bad, _ := p.Reach(Entry(g), isDelete, CutSpec{Edges: lastSharerGone}); bad {
+					okDel = false
+				}
+
+				c.Check(onlyDeletes && okDel, "R15.6", FuncName(g)+" :: the per-caller goroutine does not modify the shared waiter table", fpos(g), "only drops the entry behind a last-sharer (== 0) test",
+					"a per-caller goroutine edits the shared teardownWaiters table: other callers waiting on the same id lose their wake-up")
+			}
 		} else {
 			c.Bad("R15.6", FuncName(f)+" :: one waiter goroutine", fpos(f), fmt.Sprintf("%d goroutines", len(gos)))
 		}
